@@ -162,6 +162,7 @@ func c15ValueOps(quick bool) [][]byte {
 		vd(protocol.NewLockCommandDataPopData(5)),
 		vd(protocol.NewLockCommandDataPipelineData([]*protocol.LockCommandData{protocol.NewLockCommandDataAppendString("d"), protocol.NewLockCommandDataAppendString("e")})),
 		vd(protocol.NewLockCommandDataPipelineData([]*protocol.LockCommandData{protocol.NewLockCommandDataSetString("s"), protocol.NewLockCommandDataShiftData(1)})),
+		vd(protocol.NewLockCommandDataPipelineData([]*protocol.LockCommandData{protocol.NewLockCommandDataPushString("u"), protocol.NewLockCommandDataPopData(1)})),
 	}
 	if !quick {
 		props := []*protocol.LockCommandDataProperty{protocol.NewLockCommandDataProperty(protocol.LOCK_DATA_PROPERTY_CODE_KEY, []byte("k"))}
